@@ -208,6 +208,15 @@ void run_c(Run& r, const FftPlan& plan, const std::vector<cld>& x, const std::ve
     arr_cmplx X4(n);
     static_cast<const BaseFftPlanC&>(plan).solve(a.data(), X4.data(), n);
     r.judge_more("FftPlan::solve(ptr)", X4, X1, ok, R, nR, n, letter);
+    // the same overload with the output written over the input (the base-class overload copies its input first, so in-place use works)
+    arr_cmplx X6 = a;
+    try {
+        static_cast<const BaseFftPlanC&>(plan).solve(X6.data(), X6.data(), n);
+        r.judge_more("FftPlan::solve(ptr, in place)", X6, X1, ok, R, nR, n, letter);
+    } catch (const std::exception& e) {
+        r.tick();
+        r.ctx.fail("FftPlan::solve(ptr, in place)", fmt("exception: %s", e.what()), "the transform, as from the out-of-place call", P().kv("letter", letter).kv("kind", "throw"));
+    }
 }
 
 // all real entry points on one letter (x must be real), plus agreement with the complex path and conjugate symmetry
